@@ -210,16 +210,21 @@ def _close(a, b, tol):
 # ----------------------------------------------------------------------------- 1. tile geobox
 @st.composite
 def s_geobox(draw):
-    return {"g": draw(grids()), "idx": [draw(_index()), draw(_index())], "as_index2d": draw(st.booleans())}
+    return {"g": draw(grids()), "idxs": [[draw(_index()), draw(_index())] for _ in range(3)], "as_index2d": draw(st.booleans())}
 
 
 def o_geobox(case, T):
+    M = Grid(case["g"])
+    gs = M.mk()
+    for idx in case["idxs"]:
+        _geobox_one(case, T, M, gs, idx)
+
+
+def _geobox_one(case, T, M, gs, idx):
     from odc.geo import ixy_
     from odc.geo.crs import CRS
 
-    M = Grid(case["g"])
-    ix, iy = case["idx"]
-    gs = M.mk()
+    ix, iy = idx
     ny, nx = case["g"]["shape"]
     crs = CRS(mk_crs_spec(case["g"]["crs"]))
     require(tuple(gs.tile_shape) == (ny, nx), "tile_shape %r, specified %r", gs.tile_shape, (ny, nx))
@@ -279,7 +284,7 @@ def s_pt(draw):
             return ["frac", draw(st.floats(0.0, 1.0, exclude_max=True))]
         return [kind, draw(st.sampled_from(PT_EDGE_D)), draw(st.sampled_from([1, 1, 1, -1]))]
 
-    return {"g": g, "idx": [draw(_index()), draw(_index())], "px": axis(nx), "py": axis(ny)}
+    return {"g": g, "pts": [{"idx": [draw(_index()), draw(_index())], "px": axis(nx), "py": axis(ny)} for _ in range(4)]}
 
 
 def _pt_coord(M, ax, idx, spec, gb, slack):
@@ -301,11 +306,16 @@ def _pt_coord(M, ax, idx, spec, gb, slack):
 
 
 def o_pt(case, T):
+    M = Grid(case["g"])
+    gs = M.mk()
+    for pt in case["pts"]:
+        _pt_one({"g": case["g"], **pt}, T, M, gs)
+
+
+def _pt_one(case, T, M, gs):
     from odc.geo.types import Index2d
 
-    M = Grid(case["g"])
     idx = case["idx"]
-    gs = M.mk()
     gb = gs[tuple(idx)]
     sl = [M.slack(ax, abs(idx[ax]) + 1) for ax in (0, 1)]
     p, labs = [], []
@@ -582,6 +592,8 @@ def o_bbox(case, T):
             )
         elif v == "forb":
             nforb += 1
+            if min(min(r[2] - q[0], q[2] - r[0]), min(r[3] - q[1], q[3] - r[1])) >= -TOL:
+                T.cls("tiles_forbidden_edge_contact")
             require(
                 tidx not in gotset,
                 "tiles(bbox) returns tile %r that does not overlap the query: footprint %r, query %r, reach x %.3g y %.3g (noise %.2g)",
@@ -983,15 +995,16 @@ def o_web(case, T):
     tol = 16 * math.ulp(math.pi * R_EARTH)
     for name, got, want in zip(("left", "bottom", "right", "top"), r, ex[:4]):
         require(
-            abs(Fr(got) - want) <= Fr(tol), "web tile z=%d (%d,%d): %s = %r, slippy-map formula gives %r (diff %.3g)", z, x, y, name, got, float(want),
-            float(abs(Fr(got) - want)),
+            abs(Fr(got) - want) <= Fr(tol), "web tile z=%d (%d,%d): %s = %r, slippy-map formula gives %r (dev=%.3gm, allowed %.3g)", z, x, y, name, got,
+            float(want), float(abs(Fr(got) - want)), tol,
         )
     require(tuple(gb.shape) == (npix, npix), "web tile shape %r", tuple(gb.shape))
     res = gb.resolution
     rel = 8 * 2.0**-52
     require(
         abs(res.x - t / npix) <= rel * t / npix and abs(res.y + t / npix) <= rel * t / npix,
-        "web tile resolution %r, expected (+%r, -%r)", (res.x, res.y), t / npix, t / npix,
+        "web tile z=%d resolution %r, expected (+%r, -%r) (dev=%.3gm over a tile)", z, (res.x, res.y), t / npix, t / npix,
+        max(abs(res.x * npix - t), abs(res.y * npix + t)),
     )
     # lon/lat definition of slippy tiles (independent of the linear formula): NW and SE corner
     n = 2**z
@@ -1001,7 +1014,8 @@ def o_web(case, T):
         ex_, ey_ = _tr("4326", "3857").transform(lon, lat)
         require(
             abs(ex_ - px) <= 1e-4 and abs(ey_ - py) <= 1e-4,
-            "web tile z=%d (%d,%d): corner %r, lon/lat slippy-map corner (%r,%r) is at %r", z, x, y, (px, py), lon, lat, (ex_, ey_),
+            "web tile z=%d (%d,%d): corner %r, lon/lat slippy-map corner (%r,%r) is at %r (dev=%.3gm)", z, x, y, (px, py), lon, lat, (ex_, ey_),
+            max(abs(ex_ - px), abs(ey_ - py)),
         )
     # lookup: centre and points just inside each corner
     e = 1e-4 * t
@@ -1059,14 +1073,30 @@ def o_world(case, T):
     T.cls("full_listing" if z <= 4 else "corners_only")
 
 
+# ----------------------------------------------------------------------------- known finding signature
+def known_web_drift(sub, case, msg):
+    """web_tiles() recovers the tile size as (x0 + size) - x0: edges drift by up to 2 mm at high zoom and the world
+    query sees 2^z + 1 tiles per side.  Signature: web sub-checks, deviation below 5 mm / exactly one extra tile."""
+    import re
+
+    if sub == "web_tiles":
+        m = re.search(r"dev=([0-9.eE+-]+)m", msg)
+        return bool(m) and float(m.group(1)) < 5e-3 and case["z"] >= 2
+    if sub == "web_world":
+        n = 2 ** case["z"]
+        return "index bounds of the world" in msg and ("are (0, 0, %d, %d)" % (n + 1, n + 1)) in msg
+    return False
+
+
 # ----------------------------------------------------------------------------- registry
 def build(chk: Check) -> None:
-    chk.sub("tile_geobox", o_geobox, strategy=s_geobox(), n={"quick": 4000, "thorough": 200000})
-    chk.sub("pt2idx", o_pt, strategy=s_pt(), n={"quick": 4000, "thorough": 200000})
-    chk.sub("neighbours", o_nb, strategy=s_nb(), n={"quick": 2000, "thorough": 100000})
+    chk.known("C14-web-drift", known_web_drift)
+    chk.sub("tile_geobox", o_geobox, strategy=s_geobox(), n={"quick": 2500, "thorough": 150000})
+    chk.sub("pt2idx", o_pt, strategy=s_pt(), n={"quick": 2500, "thorough": 150000})
+    chk.sub("neighbours", o_nb, strategy=s_nb(), n={"quick": 1800, "thorough": 80000})
     chk.sub("tiles_bbox", o_bbox, strategy=s_bbox(), n={"quick": 3500, "thorough": 200000})
     chk.sub("tiles_poly", o_poly, strategy=s_poly(), n={"quick": 2500, "thorough": 120000})
-    chk.sub("tiles_poly_crs", o_xcrs, strategy=s_xcrs(), n={"quick": 1200, "thorough": 60000})
-    chk.sub("from_sample_tile", o_sample, strategy=s_sample(), n={"quick": 2000, "thorough": 100000})
+    chk.sub("tiles_poly_crs", o_xcrs, strategy=s_xcrs(), n={"quick": 1000, "thorough": 50000})
+    chk.sub("from_sample_tile", o_sample, strategy=s_sample(), n={"quick": 1700, "thorough": 80000})
     chk.sub("web_tiles", o_web, strategy=s_web(), n={"quick": 1500, "thorough": 60000})
     chk.sub("web_world", o_world, enum=e_world, exhaustive_tiers=("quick", "thorough"))
